@@ -1,4 +1,5 @@
 import MesaModel.Proofs.Activation
+import MesaModel.Props.C02
 /-!
 # C04 — one activation calls each surviving member exactly once, even under churn
 
@@ -121,6 +122,17 @@ theorem C04_groupby_do_is_regrouped_walk (script : Aid → List Action) (arg : N
   have hp := groupBy_flatten_perm key (members w t)
   apply hp.subset
   exact List.mem_flatten.mpr ⟨g.2, List.mem_map.mpr ⟨g, hg, rfl⟩, ha⟩
+
+/-- The duplicate-freeness assumed above holds at every reachable state (C02): after **any** history —
+    including earlier activations with churn and in-place shuffles — one activation of any set invokes
+    nobody twice, and every member that survives the call is invoked exactly once. -/
+theorem C04_exactly_once_all_histories (ops : List Op) (script : Aid → List Action) (arg : Nat) (t : Target) :
+    let w := run World.empty ops
+    (visited script arg w (members w t)).Nodup ∧
+    ∀ a ∈ members w t, alive (doSet script arg w t) a = true →
+      (visited script arg w (members w t)).count a = 1 :=
+  ⟨(C04_never_twice_only_members_in_order script arg _ t (C02_sets_nodup_all_histories ops t)).2.1,
+   fun a ha hend => C04_survivor_invoked_exactly_once script arg _ t (C02_sets_nodup_all_histories ops t) a ha hend⟩
 
 /-! ### non-vacuity: churn in one concrete activation -/
 
